@@ -528,6 +528,12 @@ def b_notes(tier, rnd):
             "cases": [(n,) for n in _notes(2, range(10))]}
 
 
+@battery("notes_many_accidentals")
+def b_notes_many_accidentals(tier, rnd):
+    return {"rule": "Note objects: names with <= 4 accidentals (all orderings of # and b) x octaves {0, 4, 9}",
+            "cases": [(n,) for n in _notes(4, (0, 4, 9))]}
+
+
 @battery("note_pairs")
 def b_note_pairs(tier, rnd):
     ns1 = _notes(2, (0, 3, 4, 9))
@@ -964,6 +970,74 @@ def b_bars_filled(tier, rnd):
                 import copy
                 out.append((copy.deepcopy(b),))
     return {"rule": "bars in 7 meters filled step by step with each of 10 values (every intermediate state)", "cases": out}
+
+
+@battery("bar_pairs")
+def b_bar_pairs(tier, rnd):
+    from mingus.containers.bar import Bar
+    import itertools
+    items = [None, "C", "B#", "Db", "C#", "E"]
+    octs = {"B#": 3}
+
+    def make(entries):
+        b = Bar("C", (4, 4))
+        for it, v in entries:
+            if it is None:
+                b.place_rest(v)
+            else:
+                from mingus.containers.note import Note
+                b.place_notes(Note(it, octs.get(it, 4)), v)
+        return b
+    seqs = [[]] + [[(i, v)] for i in items for v in (4, 8)] + \
+           [[(i, 4), (j, v)] for i in items[:4] for j in items[:4] for v in (4, 2)]
+    cases = [(make(a), make(b)) for a in seqs for b in seqs]
+    return {"rule": "every ordered pair of %d bars of 0..2 entries (rests, one-note containers incl. the enharmonic twins "
+                    "B#-3 / C-4 and Db / C#, values 2, 4, 8)" % len(seqs), "cases": cases}
+
+
+@battery("track_pairs")
+def b_track_pairs(tier, rnd):
+    from mingus.containers.bar import Bar
+    from mingus.containers.track import Track
+    from mingus.containers.note import Note
+
+    def bar(entries):
+        b = Bar("C", (4, 4))
+        for it, o, v in entries:
+            if it is None:
+                b.place_rest(v)
+            else:
+                b.place_notes(Note(it, o), v)
+        return b
+
+    def track(bars):
+        t = Track()
+        for b in bars:
+            t.add_bar(bar(b))
+        return t
+    bars = [[], [(None, 4, 4)], [("C", 4, 4)], [("B#", 3, 4)], [("C", 4, 8)], [("C", 4, 4), ("E", 4, 4)], [("C", 4, 4), (None, 4, 4)]]
+    tracks = [[]] + [[b] for b in bars] + [[a, b] for a in bars[:5] for b in bars[:5]]
+    cases = [(track(a), track(b)) for a in tracks for b in tracks]
+    return {"rule": "every ordered pair of %d tracks of 0..2 bars (empty bars, rests, one or two entries, the enharmonic twins "
+                    "B#-3 / C-4, values 4 and 8)" % len(tracks), "cases": cases}
+
+
+@battery("comp_pairs")
+def b_comp_pairs(tier, rnd):
+    from mingus.containers.composition import Composition
+    tr = b_track_pairs(tier, rnd)["cases"]
+    tracks = [a for a, b in tr[::33]][:12]       # the first member of every 33rd pair: 12 different tracks
+    import copy
+    lists = [[]] + [[t] for t in tracks] + [[a, b] for a in tracks[:4] for b in tracks[:4]]
+
+    def comp(ts):
+        c = Composition()
+        for t in ts:
+            c.add_track(copy.deepcopy(t))
+        return c
+    cases = [(comp(a), comp(b)) for a in lists for b in lists]
+    return {"rule": "every ordered pair of %d compositions of 0..2 tracks taken from the track_pairs battery" % len(lists),
+            "cases": cases}
 
 
 @battery("tiny_chords")
